@@ -2,9 +2,9 @@ package main
 
 import (
 	"fmt"
-	"regexp"
 	"go/token"
 	"go/types"
+	"regexp"
 	"sort"
 	"strings"
 
@@ -111,27 +111,30 @@ type Enc struct {
 	modItems  []frameItem
 	modParsed bool
 
-	loopWrites map[int]map[string]bool
-	implUsed   []implUse
-	axioms     []Term
-	finalAx    []Term
-	sentinels  []Term
-	atHit      map[int]bool
-	returns    int
-	preCond    Term
-	deferIdx   map[*ssa.Defer]int
-	rangeOf    map[*ssa.Range]ssa.Value
-	retPoints  []retPoint
-	nEntryAsm  int
-	groupTail  []*Oblig
-	atVars     map[string]SV
-	labels     map[string]*State
-	atArgTypes []types.Type
-	atResTypes []types.Type
-	siteOrd    map[ssa.Instruction]int
-	curInstr   ssa.Instruction
-	callLog    map[string]SV
-	replayTerm map[string]SV
+	loopWrites  map[int]map[string]bool
+	implUsed    []implUse
+	axioms      []Term
+	finalAx     []Term
+	sentinels   []Term
+	atHit       map[int]bool
+	returns     int
+	preCond     Term
+	deferIdx    map[*ssa.Defer]int
+	rangeOf     map[*ssa.Range]ssa.Value
+	retPoints   []retPoint
+	nEntryAsm   int
+	groupTail   []*Oblig
+	atVars      map[string]SV
+	gaddrs      []Term
+	labels      map[string]*State
+	lastRelease map[*LockDecl]*State
+	lastAcquire map[*LockDecl]*State
+	atArgTypes  []types.Type
+	atResTypes  []types.Type
+	siteOrd     map[ssa.Instruction]int
+	curInstr    ssa.Instruction
+	callLog     map[string]SV
+	replayTerm  map[string]SV
 }
 
 type loopInfo struct {
@@ -664,6 +667,9 @@ func (e *Enc) strConst(s string) Term {
 
 // ptrLoc computes the location designated by pointer value v.
 func (e *Enc) ptrLoc(v ssa.Value) *Loc {
+	if _, isGlobal := v.(*ssa.Global); isGlobal {
+		e.val(v) // registers the global's location
+	}
 	if l, ok := e.locs[v]; ok {
 		return l
 	}
@@ -783,7 +789,7 @@ func (e *Enc) val(v ssa.Value) Val {
 	case *ssa.Global:
 		// address of a global: reference identity is a fixed negative-free symbolic constant
 		name := "gaddr$" + v.String()
-		e.declare(smtName(name), "Int")
+		e.declareGaddr(smtName(name))
 		e.locs[v] = e.globalLoc(v)
 		x := Val{T: smtName(name)}
 		e.vals[v] = x
@@ -809,7 +815,7 @@ func (e *Enc) globalLoc(g *ssa.Global) *Loc {
 	case *types.Struct, *types.Array:
 		if !isTypeParam(elem) {
 			ref := smtName("gaddr$" + g.String())
-			e.declare(ref, "Int")
+			e.declareGaddr(ref)
 			return e.refLoc(ref, elem)
 		}
 	}
@@ -988,4 +994,18 @@ func (o *Oblig) setLabel(label string) {
 		return
 	}
 	o.Label = label
+}
+
+// declareGaddr declares the address of a package-level variable: non-nil, allocated before entry, distinct
+// from the addresses of other package-level variables.
+func (e *Enc) declareGaddr(name string) {
+	if _, ok := e.declOf[name]; ok {
+		return
+	}
+	e.declare(name, "Int")
+	e.assumeGFront(tAnd(tLt("0", name), tLt(name, smtName("$alloc@0"))))
+	for _, o := range e.gaddrs {
+		e.assumeGFront(tNot(tEq(name, o)))
+	}
+	e.gaddrs = append(e.gaddrs, name)
 }
